@@ -17,7 +17,7 @@ import EPV.Tactics
 
 set_option linter.all false
 
-open EPV EPV.Gen EPV.Spec
+open EPV EPV.Gen EPV.Spec Filter Topology
 
 namespace EPV.C01
 
@@ -64,5 +64,52 @@ theorem cog1_energy (p : Cog1.P) (r t : ℝ) (hr : 0 < r) (ht : 0 < t) (hγ : p.
 /-- non-vacuity: the hypotheses hold at the solver's defaults -/
 example : ∃ (p : Cog1.P) (r t : ℝ), 0 < r ∧ 0 < t ∧ p.rho0 ≠ 0 ∧ p.gamma - 1 ≠ 0 :=
   ⟨⟨40, 0, 0, 6/5, 0, 0, 7/5, 3, 0, 9/5, 7/5⟩, 1, 1, by norm_num, by norm_num, by norm_num, by norm_num⟩
+
+/-! ### The returned fields (tree level)
+
+The only path condition is `t ≤ 0` (NaN fields); where the solver returns numbers the returned
+fields are those of leaf 1, on the whole line {(x, t)} and for all times near t. -/
+
+
+theorem cog1_tree (p : Cog1.P) (r t : ℝ) (h : Cog1.outcome p r t = .ok) :
+    0 < t ∧ AgreeAt (Cog1.density p) (Cog1.L1.density p) r t
+      ∧ AgreeAt (Cog1.velocity p) (Cog1.L1.velocity p) r t
+      ∧ AgreeAt (Cog1.temperature p) (Cog1.L1.temperature p) r t := by
+  have ht : 0 < t := by
+    by_contra hc
+    have hc' : t ≤ 0 := not_lt.mp hc
+    simp [epv_tree, epv_cond, hc'] at h
+  have e : ∀ x s, 0 < s → Cog1.density p x s = Cog1.L1.density p x s
+      ∧ Cog1.velocity p x s = Cog1.L1.velocity p x s
+      ∧ Cog1.temperature p x s = Cog1.L1.temperature p x s := by
+    intro x s hs
+    have hns : ¬ s ≤ 0 := not_le.mpr hs
+    simp only [epv_tree, epv_cond, hns, if_false, and_self]
+  refine ⟨ht, ⟨fun x => (e x t ht).1, ?_⟩, ⟨fun x => (e x t ht).2.1, ?_⟩, ⟨fun x => (e x t ht).2.2, ?_⟩⟩
+  · filter_upwards [Ioi_mem_nhds ht] with s hs using (e r s hs).1
+  · filter_upwards [Ioi_mem_nhds ht] with s hs using (e r s hs).2.1
+  · filter_upwards [Ioi_mem_nhds ht] with s hs using (e r s hs).2.2
+
+/-- mass balance of the returned (tree-level) fields -/
+theorem cog1_mass_tree (p : Cog1.P) (r t : ℝ) (h : Cog1.outcome p r t = .ok) (hr : 0 < r) :
+    massRes (Cog1.density p) (Cog1.velocity p) (p.geometry - 1) r t = 0 := by
+  obtain ⟨ht, hρ', hu', hT'⟩ := cog1_tree p r t h
+  rw [massRes_congr hρ' hu']
+  exact cog1_mass p r t hr ht
+
+/-- momentum balance of the returned (tree-level) fields -/
+theorem cog1_momentum_tree (p : Cog1.P) (r t : ℝ) (h : Cog1.outcome p r t = .ok) (hr : 0 < r) (hρ : p.rho0 ≠ 0) :
+    momResT (Cog1.density p) (Cog1.velocity p) (Cog1.temperature p) p.Gamma r t = 0 := by
+  obtain ⟨ht, hρ', hu', hT'⟩ := cog1_tree p r t h
+  rw [momResT_congr hρ' hu' hT']
+  exact cog1_momentum p r t hr ht hρ
+
+/-- energy balance of the returned (tree-level) fields -/
+theorem cog1_energy_tree (p : Cog1.P) (r t : ℝ) (h : Cog1.outcome p r t = .ok) (hr : 0 < r) (hγ : p.gamma - 1 ≠ 0) (c a α β : ℝ) :
+    energyResT (Cog1.density p) (Cog1.velocity p) (Cog1.temperature p) p.Gamma p.gamma
+      (p.geometry - 1) c a 0 α β r t = 0 := by
+  obtain ⟨ht, hρ', hu', hT'⟩ := cog1_tree p r t h
+  rw [energyResT_congr hρ' hu' hT']
+  exact cog1_energy p r t hr ht hγ c a α β
 
 end EPV.C01
